@@ -164,7 +164,7 @@ def long_job(job):
         hi = any(s.get("hiprec") == 1 for s in info["stages"])
         irr = P.impl_period(info) is None
         return {"job": job, "engine": info["engine"], "bits": P.bits_of(info), "f": f, "wins": res, "out": info2["r"]["out"], "in": info2["r"]["in"],
-                "hiprec": hi, "irrational": irr, "io_ratio": ir / orr, "sig": P.plan_sig(info), "plan": P.plan_strs(info)}
+                "hiprec": hi, "hiprec_requested": bool(int(c.get("qflags", 0) or 0) & HI_PREC), "irrational": irr, "io_ratio": ir / orr, "sig": P.plan_sig(info), "plan": P.plan_strs(info)}
     except Exception as e:      # noqa
         return {"job": job, "error": repr(e)[-500:]}
 
@@ -177,7 +177,9 @@ def long_tolerance(r, w):
     fit = (2.0 ** (1 - bits) + 8 * eng_eps(r["engine"])) / (2 * math.pi * r["f"])           # what the fit of a tone at the configured precision resolves
     tol = fit + K * io * 2.0 ** -52                                                           # io_ratio is a rounded double
     if r["irrational"]:
-        tol += K * max(1.0, io) * (2.0 ** -95 if r["hiprec"] else 2.0 ** -32)                # the property's own bound for the clock
+        # the property's own bound for the clock - the hi-prec one whenever the CALLER asked for it (precision 0, the cubic stage, has nothing to hold)
+        want_hi = r["hiprec"] or (r.get("hiprec_requested") and (r["bits"] or 0) > 0)
+        tol += K * max(1.0, io) * (2.0 ** -95 if want_hi else 2.0 ** -32)
     return tol
 
 
@@ -222,6 +224,26 @@ def confirm(cfg, env):
     if r["err"] > tol or r["errc"] > tolc:
         return ("ramp read-back over %d frames: output frame at t = %.3f reads %.6g input periods off t_k = k*irate/orate (tolerance %.3g); about the zero "
                 "crossing %.6g (tolerance %.3g)" % (r["N"], r["at"], r["err"], tol, r["errc"], tolc))
+    return None
+
+
+def confirm_long(cfg, env, N=12000000):
+    """Search one configuration for a concrete drift on the real code: a tone through N input frames, its phase fitted near the start, the
+    middle and the end.  Returns a description (with the stream as the failing input) or None."""
+    c = P.mkcfg(float(cfg["ir"]), float(cfg["or"]), int(cfg.get("recipe", 4)), int(cfg.get("qflags", 0)), 0 if (env or {}).get("SOXR_USE_SIMD") == "0" else 1)
+    for k in ("prec", "min", "large", "kb", "rtflags", "phase", "pb", "sb"):
+        if k in cfg:
+            c[k] = cfg[k]
+    P.harness()
+    io = float(cfg["ir"]) / float(cfg["or"])
+    r = long_job({"cfg": c, "N": int(N * max(1.0, io)), "x": 0.47, "block": 1 << 16})
+    if "wins" not in r:
+        return None
+    for w in r["wins"]:
+        tol = long_tolerance(r, w)
+        if abs(w["dt"]) > tol:
+            return ("a %.4f cycles/frame tone of amplitude 0.5 through %d input frames is reproduced %.3g input periods off the time axis t_k = k*irate/orate "
+                    "after %d output frames (tolerance %.3g; fitted near the start: %.3g)" % (r["f"], r["in"], w["dt"], w["k"], tol, r["wins"][0]["dt"]))
     return None
 
 
@@ -287,9 +309,10 @@ def run_numeric(ctx, quick):
     lengths = [200000, 2000000, 10000000] if quick else [1000000, 10000000, 100000000]
     base = [((44100, 48000), 4, 0), ((48000, 44100), 6, HI_PREC), ((3.14159, 1), 4, 0), ((3.14159, 1), 4, HI_PREC), ((1, 1.41421356), 6, 0),
             ((1, 1.41421356), 6, HI_PREC), ((44100, 48001), 4, 0), ((44100, 48001), 5, HI_PREC), ((1, 2), 4, 0), ((147, 160), 3, 0),
-            ((1.0000001, 1), 4, 0), ((1.0000001, 1), 6, HI_PREC), ((96000, 44100), 7, HI_PREC), ((7.999, 1), 4, 0)]
+            ((1.0000001, 1), 4, 0), ((1.0000001, 1), 6, HI_PREC), ((96000, 44100), 7, HI_PREC), ((7.999, 1), 4, 0),
+            ((3.14159, 1), 1, HI_PREC), ((1, 1.41421356), 2, HI_PREC), ((44100, 48001), 1, HI_PREC)]          # 16-bit recipes with the hi-prec clock (F37)
     if quick:
-        base = [base[i] for i in sorted(set([2, 3] + [rng.below(len(base)) for _ in range(4)]))]
+        base = [base[i] for i in sorted(set([2, 3, 14 + rng.below(3)] + [rng.below(len(base)) for _ in range(4)]))]
     for (ir, orr), rec, qf in base:
         for N in lengths:
             if N >= 100000000 and rng.chance(.5) and not (qf == 0 and ir == 3.14159):
